@@ -190,7 +190,11 @@ pub fn check(case: &Case, w: usize) -> CheckResult {
     env.write_raw_config(&compact);
     if apis.len() > BASE_APIS.len() {
         // a first run, so that `result show` / `log show` have something to show from the start
-        let _ = env.mr(&["run", "-c", "build", "zeta", "alpha"]);
+        let first = env.mr(&["run", "-c", "build", "zeta", "alpha"]);
+        if first.json().is_none() {
+            // (not one of the judged observations: without it there is nothing to show)
+            return inconclusive(format!("the preparatory run produced no result: {}", first.brief()));
+        }
     }
     let reference = observe(&mut env, &apis);
     for (i, api) in apis.iter().enumerate() {
